@@ -1,10 +1,15 @@
 import Lean.Data.Json
-import PynguinModel.Model.FsPathStr
+import PynguinModel.Model.FsCwd
 /-! Line-protocol driver for C29: one JSON case per line in, one JSON result per line out.
-case = {"init": [[path, node]…], "ops": [op…], "spell": [{"sp": segs?, "sq": segs?}…]?, "probes": [path…]?};
-result = {"res": […], "created": […], "pre": fs, "post": fs, "iso": [bool…]} where `iso` is the STRING walk of
-`_is_isolated` (`isIsolatedStr`) on the recorded set before exit, for every probe path.  Every path component
-must be a real file name and every spelling must normalise (`normSegs`) to the argument it spells. -/
+case = {"init": [[path, node]…], "ops": [op | {"chdir": {"p": path}} | {"reenter": {}} …],
+        "spell": [{"sp": segs?, "sq": segs?, "rel": bool?, "relq": bool?}…]?, "probes": [path…]?};
+one PROCESS: the operations run inside a `FilesystemIsolation`, `reenter` exits it and enters a new one, `chdir`
+changes the working directory (initially the sandbox root).  A spelling is absolute (segments below the sandbox
+root; it must normalise to the argument it spells) or, with `rel`/`relq`, relative to the CURRENT working directory
+(then the argument written in the operation is only the generator's intention: the model resolves the spelling).
+result = {"res": […], "args": [resolved arguments | null …], "cwds": [working directory after each step | null …],
+"rounds": [{"created", "pre", "post", "iso"}…]} — one round per isolation; `iso` is the STRING walk of
+`_is_isolated` (`isIsolatedStr`) on the recorded set before that exit, for every probe path. -/
 open Lean PynguinModel.FsIsolation
 
 deriving instance FromJson, ToJson for Node
@@ -17,17 +22,35 @@ deriving instance FromJson for RemoveApi
 deriving instance FromJson for RmdirApi
 deriving instance FromJson for Op
 
-/-- how operation `i` spells its arguments (segments relative to the sandbox root; absent = normal form);
-`rel` (spelled relative to the working directory = the sandbox root) only concerns the implementation side -/
+/-- how step `i` spells its arguments (absent = the plain absolute normal form); `bare` (no leading `./`) only
+concerns the implementation side -/
 structure SpellJ where
   sp : Option (List String) := none
   sq : Option (List String) := none
   rel : Option Bool := none
+  relq : Option Bool := none
   deriving FromJson
+
+inductive JOp where
+  | op (o : Op)
+  | chdir (p : Path)
+  | reenter
+
+def parseJOp (j : Json) : Except String JOp :=
+  match j.getObjVal? "chdir" with
+  | .ok v => do
+    let p ← v.getObjValAs? (List String) "p"
+    pure (.chdir p)
+  | .error _ =>
+    match j.getObjVal? "reenter" with
+    | .ok _ => pure .reenter
+    | .error _ => .op <$> (fromJson? j : Except String Op)
+
+instance : FromJson JOp := ⟨parseJOp⟩
 
 structure Case where
   init : List (Path × Node)
-  ops : List Op
+  ops : List JOp
   spell : Option (List SpellJ) := none
   probes : Option (List Path) := none
   deriving FromJson
@@ -42,30 +65,93 @@ def resJ : Res → Json
 def fsJ (fs : FS) : Json :=
   Json.arr (fs.map (fun e => Json.arr #[toJson e.1, toJson e.2])).toArray
 
-def spOps (c : Case) : Option (List SpOp) :=
-  match c.spell with
-  | none => some (c.ops.map (fun o => ⟨o, none, none⟩))
-  | some sl =>
-    if sl.length != c.ops.length then none
-    else some ((c.ops.zip sl).map (fun x => ⟨x.1, x.2.sp, x.2.sq⟩))
+def segOk (s : String) : Bool := s == "" || s == "." || s == ".." || cleanNameB s
 
-def argPaths (o : Op) : List Path := let a := opArgs o; a.1 :: a.2.toList
+/-- the spelling of one argument; an absolute spelling must normalise to the argument it spells -/
+def mkSpell (rel : Bool) (segs : Option (List String)) (p : Path) : Except String Spell :=
+  let sp : Spell := ⟨rel, segs.getD p⟩
+  if !sp.segs.all segOk then .error "a spelling has a segment that is neither a file name nor '', '.', '..'"
+  else if !rel && climb [] sp.segs != some p then .error "a spelling does not normalise to its argument"
+  else .ok sp
+
+def toCOp (j : JOp) (sl : SpellJ) : Except String COp :=
+  let rel := sl.rel.getD false
+  let relq := sl.relq.getD rel
+  match j with
+  | .reenter => .ok .reenter
+  | .chdir p => do
+    let sp ← mkSpell rel sl.sp p
+    pure (.chdir sp)
+  | .op o =>
+    let a := opArgs o
+    match a.2, sl.sq with
+    | none, some _ => .error "a spelling for an argument the operation does not have"
+    | _, _ => do
+      let sp ← mkSpell rel sl.sp a.1
+      let sq ← mkSpell relq sl.sq (a.2.getD [])
+      pure (.op o sp sq)
+
+def cops (c : Case) : Except String (List COp) :=
+  match c.spell with
+  | none => c.ops.mapM (fun j => toCOp j {})
+  | some sl =>
+    if sl.length != c.ops.length then .error "spell list does not match the operations"
+    else (c.ops.zip sl).mapM (fun x => toCOp x.1 x.2)
+
+def jopPaths : JOp → List Path
+  | .op o => let a := opArgs o; a.1 :: a.2.toList
+  | .chdir p => [p]
+  | .reenter => []
+
+def pathsJ (l : List Path) : Json := toJson l
+
+/-- the arguments the step acts on, resolved against the working directory of the call -/
+def argsJ (s : CSt) : COp → Json
+  | .reenter => pathsJ []
+  | .chdir sp => match resolve s.cwd sp with | some p => pathsJ [p] | none => Json.null
+  | .op o sp sq =>
+    match resolveArgs s o sp sq with
+    | some (p, q) => pathsJ (if hasDst o then [p, q] else [p])
+    | none => Json.null
+
+def roundJ (probes : List Path) (s : St) : Json :=
+  Json.mkObj [("created", toJson s.created), ("pre", fsJ s.fs), ("post", fsJ (exitCleanup s)),
+              ("iso", toJson (probes.map (fun p => isIsolatedStr s.created p)))]
+
+structure RunAcc where
+  s : CSt
+  res : Array Json := #[]
+  args : Array Json := #[]
+  cwds : Array Json := #[]
+  rounds : Array Json := #[]
+  bad : Bool := false
+
+def cwdJ : Option Path → Json
+  | some d => toJson d
+  | none => Json.null
 
 def runCase (c : Case) : Json :=
   if !prefixClosedB c.init then Json.mkObj [("bad-op", "initial tree is not prefix-closed")] else
   let probes := c.probes.getD []
-  if !(c.init.all (fun e => cleanPathB e.1) && c.ops.all (fun o => (argPaths o).all cleanPathB)
+  if !(c.init.all (fun e => cleanPathB e.1) && c.ops.all (fun o => (jopPaths o).all cleanPathB)
        && probes.all cleanPathB) then
     Json.mkObj [("bad-op", "a path component is not a file name (empty, '.', '..' or contains '/')")] else
-  match spOps c with
-  | none => Json.mkObj [("bad-op", "spell list does not match the operations")]
-  | some ops =>
-  if !ops.all spellsArgs then Json.mkObj [("bad-op", "a spelling does not normalise to its argument")] else
-  let r := runLogSp ops ⟨c.init, []⟩
-  if !r.1.created.all cleanPathB then Json.mkObj [("bad-op", "a recorded path is not made of file names")] else
-  Json.mkObj [("res", Json.arr (r.2.map resJ).toArray), ("created", toJson r.1.created),
-              ("pre", fsJ r.1.fs), ("post", fsJ (exitCleanup r.1)),
-              ("iso", toJson (probes.map (fun p => isIsolatedStr r.1.created p)))]
+  match cops c with
+  | .error e => Json.mkObj [("bad-op", e)]
+  | .ok ops =>
+  let a := ops.foldl (fun (a : RunAcc) co =>
+      let aj := argsJ a.s co
+      let bad := a.bad || !a.s.st.created.all cleanPathB
+      let rounds := match co with
+        | .reenter => a.rounds.push (roundJ probes a.s.st)
+        | _ => a.rounds
+      let r := stepC co a.s
+      { s := r.1, res := a.res.push (resJ r.2), args := a.args.push aj, cwds := a.cwds.push (cwdJ r.1.cwd),
+        rounds := rounds, bad := bad }) { s := startC c.init [] }
+  if a.bad || !a.s.st.created.all cleanPathB then
+    Json.mkObj [("bad-op", "a recorded path is not made of file names")] else
+  Json.mkObj [("res", Json.arr a.res), ("args", Json.arr a.args), ("cwds", Json.arr a.cwds),
+              ("rounds", Json.arr (a.rounds.push (roundJ probes a.s.st)))]
 
 partial def loop (h : IO.FS.Stream) : IO Unit := do
   let line ← h.getLine
